@@ -92,6 +92,7 @@ func getPKI() *pki {
 			m["selfsigned"] = leaf(nil, nil, cn, dns, ips, now.Add(-time.Hour), now.Add(12*time.Hour), true)
 			m["otherca"] = leaf(other, otherKey, cn, dns, ips, now.Add(-time.Hour), now.Add(12*time.Hour), false)
 			m["expired"] = leaf(ca, caKey, cn, dns, ips, now.Add(-48*time.Hour), now.Add(-24*time.Hour), false)
+			m["dnsonly"] = leaf(ca, caKey, cn, dns, nil, now.Add(-time.Hour), now.Add(12*time.Hour), false) // valid for the name "localhost" only, no IP
 			m["wronghost"] = leaf(ca, caKey, "wrong.example", []string{"wrong.example"}, nil, now.Add(-time.Hour), now.Add(12*time.Hour), false)
 		}
 		thePKI = p
